@@ -202,3 +202,40 @@ def replay_file(prop, path):
             run.violation(sig, c)
         validate_engine_traces(run, [trace], 'replay', {1: case})
     return run.finish()
+
+
+def run_family_js(run, label, queries, recsA, recsB='R_none', maxA=2, maxB=0, hdrmodes=(False,), opts=None, also=None):
+    """The same TLC-emitted cases rendered into JavaScript syntax and run through rbql-js query_table (C19, C06)."""
+    from . import node
+    opts = dict(opts or {})
+    d = tlcrun.new_scratch('engjs')
+    cfg = engine_cfg(os.path.join(d, label + '.cfg'), queries, recsA, recsB, maxA, maxB, hdrmodes, (0,))
+    res = tlcrun.run_tlc('MC_Engine', cfg, coverage=(run.tier != 'quick'), timeout=7200, heap='24g')
+    run.add_tlc('MC_Engine:' + label, res)
+    cases = res.cases
+    reqs = []
+    texts = []
+    for case in cases:
+        key = case_key(case)
+        sp = engine.Spelling(key + 'js' + str(run.seed)) if opts.get('spelling', True) else engine.Plain()
+        qtext = engine.render_query(case, sp, 'js')
+        texts.append(qtext)
+        reqs.append(engine.js_request(case, qtext))
+    resp = node.run_batch(reqs, nproc=par.NPROC)
+    for case, qtext, r in zip(cases, texts, resp):
+        obs = engine.js_observation(r)
+        sigs = engine.judge(case, obs, qtext, check_header=opts.get('check_header', True))
+        sigs = [dict(s, impl='js') for s in sigs]
+        if obs['src_changed']:
+            sigs.append({'impl': 'js', 'what': 'caller arrays modified', 'kind': case['q']['kind'], 'query': qtext})
+        if obs['alias']:
+            sigs.append({'impl': 'js', 'what': 'output row aliases an input row', 'kind': case['q']['kind'], 'query': qtext})
+        run.traces += 1
+        nontrivial = len(case['A']) >= 2 and (bool(case['expect']['out']) or bool(case['expect']['err']))
+        run.count(['js', case_key(case)], nontrivial=nontrivial)
+        if len(run.samples) < 5 and nontrivial and len(case['A']) == 2:
+            run.sample({'js_query': qtext, 'A': engine.table_py(case['A']), 'expect_out': case['expect']['out'][:3]})
+        for sig in sigs:
+            run.violation(sig, {'kind': 'engine_case_js', 'case': case, 'opts': opts})
+    run.notes.setdefault('cases_per_family', {})[label] = len(cases)
+    return len(cases)
